@@ -729,6 +729,8 @@ class History(System):
                     acts.append(('mix', r, (r, o), 1e3)); acts.append(('mix', r, (o,), 0.)); acts.append(('mix', r, (o, o), -1e3))
                 else:
                     acts.append(('mix', r, (r, o), 1e3)); acts.append(('mix', r, (o,), 0.))
+                # r becomes a copy() of o (two streams with equal state; later steps change one of them and read both alternately)
+                if sn[o].total > 0 and (rich or n == 2): acts.append(('copy', r, o))
                 # separate_out: other <= receiver per chemical, remainder non-empty, both non-empty
                 if sn[o].total > 0 and np.all(sn[o].mol <= sn[r].mol) and (sn[r].mol - sn[o].mol).sum() > 0:
                     # a multi-phase receiver gives the part up phase by phase: the part must be contained in each phase
@@ -765,6 +767,14 @@ class History(System):
         elif op == 'set':
             _, r, at, Ts = a
             obs = check_set(S[r], at, Ts)
+        elif op == 'copy':
+            _, r, o = a
+            b = Snap(S[o])
+            S[r] = S[o].copy()
+            af = Snap(S[r])
+            if af.T != b.T or af.P != b.P or af.cls != b.cls or any(not np.array_equal(af.flows.get(p_, 0), f) for p_, f in b.flows.items()):
+                raise Violation('copy-state', f'copy() of stream {o} differs from it: {b.jsonable()} -> {af.jsonable()}', match=dict(op='copy'))
+            obs = ('copy',)
         elif op == 'restore':
             # read the value, move the temperature directly (no read in between), assign the value read: T must come back
             _, r, at, T2 = a
